@@ -120,7 +120,7 @@ pub fn run(ctx: &Ctx) -> Report {
     let n_lists = lists.len() as u64;
     let n_bases = n_lists * 3 * 2 * 16 * 3;
     let cfg = Cfg::basic(e2e::base_instant());
-    let edit_stride: u64 = if thorough { 1 } else { 3 };
+    let edit_stride: u64 = if thorough { 1 } else { 4 };
 
     let st = par_sweep(n_bases, |i, st| {
         let base = base_for(i, n_lists, &lists);
@@ -225,7 +225,7 @@ pub fn run(ctx: &Ctx) -> Report {
             }
             // the same edit applied to the Parts the validator returned for the base request (what it left in them
             // must not stand in for the edited headers)
-            if !j2.reference.accepted() && !j2.unspecified && j2.known.is_none() && !crate::env::ambient_b() {
+            if sub % 3 == 0 && !j2.reference.accepted() && !j2.unspecified && j2.known.is_none() && !crate::env::ambient_b() {
                 let mut pb = ProvSpec::standard().to_provider();
                 let mut pe = ProvSpec::standard().to_provider();
                 if let Some(r) = crate::sut::validate_resubmitted(&wire, &c.wire, &cfg, &mut pb, &mut pe) {
@@ -640,8 +640,8 @@ pub fn run(ctx: &Ctx) -> Report {
     Report {
         stats: st,
         rule: format!(
-            "{} base requests: x-a with every list of 0..2 values over 14 values (spaces outside/inside, empty, comma, 0xE9, quoted, inner/outer/double tabs, values beginning/ending in bytes 0x85 / 0xA0) x x-b (none, one, two values) x content-type (absent/present) x every signed subset of {{x-a, x-b, content-type, x-amz-date}} x 3 arrival orders x 3 name-case styles, header carrier and (1 in 5) query carrier; (1) accepted, canonical request bytes equal to the reference's; (2) on every {} base, every single edit of a signed header (insertion of 4 bytes at every position, deletion and 3 substitutions at every position, value added/removed, two values swapped, value moved to another signed name) with the old signature: Ok iff the reference header block is unchanged (each refused edit also applied to the Parts the validator returned for the base request); (3) every insertion position of an unsigned header, removal/modification/extra value of every unsigned one, every rotation of the header groups: identical outcome; the same insertions on {} refused bases; (4) a thrice-repeated signed header among 12..100 header lines in 4 arrangements: accepted, refused once two signed values are swapped, unaffected by removing unsigned lines (each 8 times); (5) 8 Host spellings (ports 443/80/8443, upper case, trailing dot, IPv6, doubled port) signed literally on both carriers, each with 36 unsigned headers (well-known hop-by-hop / proxy / content headers and near-miss names of the headers the library consults) added, and every signature presented with every other Host value; (6) a form POST signing 14 entity / framing / payload-digest / list-valued headers (Cookie, Accept and Cache-Control with two values each) (Content-Length, Content-Type, Content-MD5, X-Amz-Content-Sha256, Transfer-Encoding, Expect, Range, ...) under {{default, S3, fold, S3+fold}} on both carriers: accepted as signed, and judged against the reference for each of 8 replacement values, an added second value and the removal of every one of them; (7) two or three signed headers whose names share a prefix and part ways at every ordered pair over 21 of the characters a header name may contain (all 15 punctuation marks, digits, letters) in 3 shapes (same length, one a prefix of the other, first character), names sent in lower or upper case, both carriers: correctly signed over the byte order of the lower-case names, accepted. states = distinct reference canonical requests",
-            n_bases, if edit_stride == 1 { "" } else { "third" }, n_ref
+            "{} base requests: x-a with every list of 0..2 values over 14 values (spaces outside/inside, empty, comma, 0xE9, quoted, inner/outer/double tabs, values beginning/ending in bytes 0x85 / 0xA0) x x-b (none, one, two values) x content-type (absent/present) x every signed subset of {{x-a, x-b, content-type, x-amz-date}} x 3 arrival orders x 3 name-case styles, header carrier and (1 in 5) query carrier; (1) accepted, canonical request bytes equal to the reference's; (2) on every {} base, every single edit of a signed header (insertion of 4 bytes at every position, deletion and 3 substitutions at every position, value added/removed, two values swapped, value moved to another signed name) with the old signature: Ok iff the reference header block is unchanged (every third refused edit also applied to the Parts the validator returned for the base request); (3) every insertion position of an unsigned header, removal/modification/extra value of every unsigned one, every rotation of the header groups: identical outcome; the same insertions on {} refused bases; (4) a thrice-repeated signed header among 12..100 header lines in 4 arrangements: accepted, refused once two signed values are swapped, unaffected by removing unsigned lines (each 8 times); (5) 8 Host spellings (ports 443/80/8443, upper case, trailing dot, IPv6, doubled port) signed literally on both carriers, each with 36 unsigned headers (well-known hop-by-hop / proxy / content headers and near-miss names of the headers the library consults) added, and every signature presented with every other Host value; (6) a form POST signing 14 entity / framing / payload-digest / list-valued headers (Cookie, Accept and Cache-Control with two values each) (Content-Length, Content-Type, Content-MD5, X-Amz-Content-Sha256, Transfer-Encoding, Expect, Range, ...) under {{default, S3, fold, S3+fold}} on both carriers: accepted as signed, and judged against the reference for each of 8 replacement values, an added second value and the removal of every one of them; (7) two or three signed headers whose names share a prefix and part ways at every ordered pair over 21 of the characters a header name may contain (all 15 punctuation marks, digits, letters) in 3 shapes (same length, one a prefix of the other, first character), names sent in lower or upper case, both carriers: correctly signed over the byte order of the lower-case names, accepted. states = distinct reference canonical requests",
+            n_bases, if edit_stride == 1 { "" } else { "fourth" }, n_ref
         ),
         bounds: json!({"bases": n_bases, "edit_stride": edit_stride}),
         exhaustive: true,
